@@ -18,9 +18,32 @@ import (
 
 var log = logging.Logger("autoconf")
 
-// writeOwnerOnlyFile writes data to a file with owner-only permissions (0600)
+// writeOwnerOnlyFile writes data to a file with owner-only permissions (0600).
+//
+// The data is written to a temporary file in the same directory which is then
+// renamed over filename, so that a reader, or a process that is interrupted
+// half-way, never observes a partially written file: filename either keeps
+// its previous content (or stays absent) or has the complete new content.
+// The temporary name does not end in ".json", so it is never mistaken for a
+// cached config by listCacheFiles.
 func writeOwnerOnlyFile(filename string, data []byte) error {
-	return os.WriteFile(filename, data, filePermOwnerReadWrite)
+	// os.CreateTemp creates the file with mode 0600 (filePermOwnerReadWrite)
+	tmp, err := os.CreateTemp(filepath.Dir(filename), ".tmp-*")
+	if err != nil {
+		return err
+	}
+	tmpName := tmp.Name()
+	_, err = tmp.Write(data)
+	if cerr := tmp.Close(); err == nil {
+		err = cerr
+	}
+	if err == nil {
+		err = os.Rename(tmpName, filename)
+	}
+	if err != nil {
+		_ = os.Remove(tmpName)
+	}
+	return err
 }
 
 const (
